@@ -7,6 +7,10 @@
 //                                                            add_answer / add_authority / add_additional
 //   reparse                                                  current := DNS(current.serialize())
 //   ser                                                      print serialize()
+//   soa <hex> [@...]                                         DNS::soa_record(buffer, size) on an exact-size heap block:
+//                                                            the seven fields or the exception (does not touch the message)
+//   soas                                                     DNS::soa_record(resource) on every SOA record of the three
+//                                                            record getters
 //
 // After every op one canonical line: result, header counts, the three section offsets, records_data_ and the
 // four section getters (each may throw on its own).  Compiled with -fno-access-control to observe the private state.
@@ -47,6 +51,34 @@ static std::string show_res(const DNS::resources_type& rs) {
     }
     o << "]";
     return o.str();
+}
+
+static std::string show_soa(const DNS::soa_record& r) {
+    std::ostringstream o;
+    o << "ok:" << shex(r.mname()) << ":" << shex(r.rname()) << ":" << r.serial() << ":" << r.refresh() << ":" << r.retry()
+      << ":" << r.expire() << ":" << r.minimum_ttl();
+    return o.str();
+}
+
+static std::string soas_of(const DNS::resources_type& rs) {
+    std::string s = "[";
+    bool first = true;
+    for (size_t i = 0; i < rs.size(); ++i) {
+        if (rs[i].query_type() != DNS::SOA) continue;
+        if (!first) s += ",";
+        first = false;
+        // the constructor reads resource.data() in place: hand it a string without spare capacity
+        DNS::resource exact(rs[i]);
+        std::string d(exact.data());
+        d.shrink_to_fit();
+        exact.data(d);
+        try {
+            s += show_soa(DNS::soa_record(exact));
+        } catch (const std::exception& e) {
+            s += "throw:" + exc_name(e);
+        }
+    }
+    return s + "]";
 }
 
 template <typename F>
@@ -139,6 +171,26 @@ int main() {
                 return show("throw:" + exc_name(e), *d);
             }
             return show("ok", *d);
+        }
+        if (w[0] == "soa" && w.size() >= 2) {
+            bytes b;
+            if (!parse_hex(w[1], b)) return "bad-op";
+            // exact-size heap block (one octet past the end is an ASan red zone); empty = its one-past-the-end pointer
+            std::unique_ptr<uint8_t[]> blk(new uint8_t[b.size() ? b.size() : 1]);
+            if (!b.empty()) memcpy(blk.get(), b.data(), b.size());
+            try {
+                DNS::soa_record r(b.empty() ? blk.get() + 1 : blk.get(), uint32_t(b.size()));
+                return "soa " + show_soa(r);
+            } catch (const std::exception& e) {
+                return "soa throw:" + exc_name(e);
+            }
+        }
+        if (w[0] == "soas") {
+            std::string o = "soas";
+            o += " AN=" + guarded([&]() { return soas_of(d->answers()); });
+            o += " AU=" + guarded([&]() { return soas_of(d->authority()); });
+            o += " AD=" + guarded([&]() { return soas_of(d->additional()); });
+            return o;
         }
         if (w[0] == "ser") {
             PDU::serialization_type s = d->serialize();
